@@ -46,7 +46,7 @@ def context(tier, seed):
 
 
 def units(ctx):
-    return list(range(len(bases(ctx)))) + list(hist.hist_units()) + ["long"]
+    return list(range(len(bases(ctx)))) + list(hist.hist_units()) + ["long"] + [("scale", k) for k in range(len(lib.LADDER))]
 
 
 def variants(ns, ev, ctx):
@@ -104,6 +104,40 @@ def gen_cases(unit, ctx):
             yield {"base": ns, "base_ev": ev, "kind": "identity:relative", "notes": ns, "events": ev, "build": "rel", "order": None}
             yield {"base": ns, "base_ev": ev, "kind": "identity:copy", "notes": ns, "events": ev, "build": "copy", "order": None}
         return
+    if isinstance(unit, tuple) and unit[0] == "scale":
+        # scale ladder: 33 ... 1025 notes spread over thousands of ticks, one pedal note of >1000 ticks; one-tick / one-step
+        # perturbations at the start, the middle and the far end; eight fixed insertion orders, each compared directly
+        # and after handing the relative view on
+        n = lib.LADDER[unit[1]]
+        c0, c1 = ctx["ch"]
+        ns = [list(x) for x in lib.long_desc(n, ctx["p"], (c0, c1, 7), 25, lens=(3, 9, 5, 14))] + [[1, 25 * n + 200, ctx["p"] - 9, c0, 77]]
+        ev = [["ts", 0, 3, 4], ["ks", 25 * n // 2, "G"], ["ts", 25 * n + 8, 4, 4]]
+        for i in sorted({0, n // 2, n - 1, n}):
+            for kind_, f in (("perturb:pitch", lambda x: [x[0], x[1], x[2] + 12, x[3], x[4]]),
+                             ("perturb:onset", lambda x: [x[0] + 1, x[1], x[2], x[3], x[4]]),
+                             ("perturb:length", lambda x: [x[0], x[1] + 1, x[2], x[3], x[4]]),
+                             ("perturb:length", lambda x: [x[0], x[1] - 1, x[2], x[3], x[4]]),
+                             ("perturb:velocity", lambda x: [x[0], x[1], x[2], x[3], 127 if x[4] != 127 else 1])):
+                vn = ns[:i] + [f(ns[i])] + ns[i + 1:]
+                yield {"base": ns, "base_ev": ev, "kind": kind_, "notes": vn, "events": ev, "build": "abs", "order": None}
+        for j, (kind_, d) in enumerate((("perturb:ks_tick", 1), ("perturb:ts_tick", 1), ("perturb:ts_tick", -1))):
+            e2 = [list(e) for e in ev]
+            e2[1 if j == 0 else 2][1] += d
+            yield {"base": ns, "base_ev": ev, "kind": kind_, "notes": ns, "events": e2, "build": "abs", "order": None}
+        yield {"base": ns, "base_ev": ev, "kind": "identity:relative", "notes": ns, "events": ev, "build": "rel", "order": None}
+        m = len(ns) + len(ev)
+        if n <= 257:
+            orders = {"reverse": list(range(m))[::-1], "halves": [x for pair in zip(range(m // 2), range(m // 2, m)) for x in pair] +
+                      ([m - 1] if m % 2 else []), "voices": sorted(range(m), key=lambda i: (i % 3, i))}
+            for k in (7, 11, 13, 29, 31):
+                while __import__("math").gcd(k, m) != 1:
+                    k += 2
+                orders[f"stride{k}"] = [(i * k) % m for i in range(m)]
+            for nm, order in orders.items():
+                for build in ("perm", "perm_rel"):
+                    yield {"base": ns, "base_ev": ev, "kind": "identity:order", "notes": ns, "events": ev, "build": build,
+                           "order": order}
+        return
     if isinstance(unit, tuple):
         for h in hist.hist_of_unit(unit):
             yield {"seed": unit[1], "build": unit[2], "hist": h, "kind": "identity:history"}
@@ -133,7 +167,7 @@ def construct(notes, events, build, order, ch_events=0):
         s = lib.seq_abs(start, events)
         # `notes` is the starting point; the caller passes the target (base) separately through `edit_to`
         return s
-    if build == "perm":
+    if build in ("perm", "perm_rel"):
         from scoda.sequences.sequence import Sequence
         s = Sequence()
         items = [("n", n) for n in notes] + [("e", e) for e in events]
@@ -144,6 +178,9 @@ def construct(notes, events, build, order, ch_events=0):
                 s.add_absolute_message(lib.off(x[0] + x[1], x[2], x[3]))
             else:
                 s.add_absolute_message(lib.event_msgs([x])[0])
+        if build == "perm_rel":
+            # the relative view of the built sequence handed on as a sequence of its own
+            return Sequence(relative_sequence=s.rel.copy())
         return s
     s = lib.seq_abs(notes, events, ch_events=ch_events)
     if build == "copy":
